@@ -35,10 +35,12 @@ def headc_name(r):
     return "headcontent_" + hashlib.sha1(body.encode("utf-8")).hexdigest()
 
 
-def as_dep(r):
-    """Normalise dep / headc recipes to a dep-like dict (name, version, fields)."""
+def as_dep(r, name_of=None):
+    """Normalise dep / headc recipes to a dep-like dict (name, version, fields).  The statement does not fix the
+    naming scheme of head_content (only that it is a function of the content, C18), so the caller may supply the
+    name the library gave (`name_of`); the sha1-based default documents today's scheme."""
     if r["k"] == "headc":
-        return {"k": "dep", "name": headc_name(r), "version": "0.0", "head": list(r["c"]), "_orig": r}
+        return {"k": "dep", "name": (name_of or headc_name)(r), "version": "0.0", "head": list(r["c"]), "_orig": r}
     return r
 
 
@@ -87,7 +89,7 @@ def merge_kw(attrs, kw):
     return out
 
 
-def assemble(content, kw, lib_prefix="lib", include_version=True):
+def assemble(content, kw, lib_prefix="lib", include_version=True, headc_name_of=None):
     items = flat(copy.deepcopy(content))
     if len(items) == 1 and items[0]["k"] == "tag" and items[0]["name"] == "html":
         html = items[0]
@@ -101,7 +103,7 @@ def assemble(content, kw, lib_prefix="lib", include_version=True):
             body = T("body", *items)
         html = T("html", T("head"), body, attrs=merge_kw([], kw))
     # dependencies: document order over the whole <html>, then resolved
-    seq = [as_dep(d) for d in refdeps.collect(html)]
+    seq = [as_dep(d, headc_name_of) for d in refdeps.collect(html)]
     resolved = refdeps.resolve(seq, name=lambda d: d["name"], version=lambda d: d["version"])
     # head
     hi = None
